@@ -35,7 +35,7 @@ class LinearLayerTT(nn.Module):
             InvalidArguments: Initializer not defined. Possible choices are 'He' and 'Glo'.
         """
         super().__init__()
-        self.size_in, self.size_out, self.rank = size_in, size_out, rank
+        self.size_in, self.size_out, self.rank = list(size_in), list(size_out), rank
         if initializer=='He':
             t = torchtt.randn([(s2,s1) for s1,s2 in zip(size_in,size_out)], rank, dtype=dtype, var = 2/tn.prod(tn.tensor([s1 for s1 in size_in])))
             #self.cores = [nn.Parameter(tn.Tensor(c.clone())) for c in t.cores] 
